@@ -59,6 +59,9 @@ CHECKS = {
             "trusted: numpy/scipy/math arithmetic; carriers as stated in the property (non-negative for max/min with mul, booleans for and/or)", "DESIGN.md §6 C15"),
 }
 LEVELS = {"C17": "fault_enumeration"}
+CHECKS["C20"] = ("mutation monitor: write-protected leaf arrays (write attempts raise at the write site) + content snapshots of every array, every funsor passed to any rule and every result, re-verified after each program and at the end of the run",
+            "All engines are run with every user-supplied array read-only and hashed; the dispatch monitor snapshots each funsor the first time it is handed to a rule; after each program and at the end of the shard every snapshot must still match. Exploration.",
+            "trusted: numpy write protection, sha1 content hashes; memoised attributes are not considered part of a term's value", "DESIGN.md §6 C20")
 ALL = ["C%02d" % i for i in range(1, 21)]
 NOT_YET = {}
 
